@@ -277,9 +277,15 @@ def gen_cases(tier, rng):
     quick = tier == "quick"
     cases = []
 
-    def add(enc, ver, ctx, cls, pre, post, pos=None, e2e=False):
+    def add(enc, ver, ctx, cls, pre, post, pos=None, e2e=False, indent=False):
         body = [X] * pre + CLASSES[cls] + [X] * post
         if not contract_ok(ctx, body):
+            return
+        if indent:
+            # the INDENTING instantiation of the factory serializer (XalanXMLSerializerFactory::create picks one of twelve classes by
+            # encoding family x version x indent): one element with text / attribute / CDATA content, where indentation adds nothing
+            cases.append({"enc": enc, "ver": ver, "decl": True, "indent": True, "which": ["new"], "script": place(ctx, body),
+                          "meta": {"ctx": ctx, "cls": cls, "pos": pos, "post": post, "indent": True}})
             return
         cases.append({"enc": enc, "ver": ver, "decl": True, "which": ["new", "legacy"] + (["e2e"] if e2e else []), "script": place(ctx, body),
                       "meta": {"ctx": ctx, "cls": cls, "pos": pos, "post": post}})
@@ -290,6 +296,8 @@ def gen_cases(tier, rng):
             for ctx in CONTEXTS:
                 for cls in CLASSES:
                     add(enc, ver, ctx, cls, 2, 2, e2e=True)
+                    if ctx in ("T", "A", "D"):
+                        add(enc, ver, ctx, cls, 2, 2, indent=True)
                     if ctx == "D" or not quick:
                         add(enc, ver, ctx, cls, 2, 0, e2e=(ctx == "D"))          # the special character last (CDATA look-ahead, section left open)
                     if ctx == "D" and (cls in ("rsb", "cdend", "bmp", "supp", "cr") or not quick):
